@@ -291,7 +291,11 @@ pub fn op(p: &Profile, depth: u32, in_cb: bool, d: &mut Dec) -> Op {
         }
         _ => {
             let max = p.max_timeout_ms;
-            Op::Dispatch { timeout_ms: if max == 0 || d.pickw(&[4, 1]) == 0 { 0 } else { d.u8r(1, max) } }
+            if p.long_dispatch_pct > 0 && d.pct(p.long_dispatch_pct.min(90)) {
+                Op::Dispatch { timeout_ms: LONG_DISPATCH_MS }
+            } else {
+                Op::Dispatch { timeout_ms: if max == 0 || d.pickw(&[4, 1]) == 0 { 0 } else { d.u8r(1, max) } }
+            }
         }
     }
 }
